@@ -267,6 +267,8 @@ pub fn kind_name(k: OpKind) -> &'static str {
         OpKind::FetchAdd => "FetchAdd",
         OpKind::FetchSub => "FetchSub",
         OpKind::CasWeak => "CasWeak",
+        OpKind::CasStrong => "CasStrong",
+        OpKind::FetchOther => "FetchOther",
         OpKind::Lock => "Lock",
         OpKind::Unlock => "Unlock",
         OpKind::RLock => "RLock",
